@@ -245,37 +245,49 @@ def check_custom():
             ("non-exception-attr:subprocess.Popen", ("subprocess", "Popen"), "subprocess" in sys.modules, None),
             ("class-but-not-exception:builtins.object", ("builtins", "object"), True, None),
         ]
+        settings = [(a, b) for a in (False, True) for b in (False, True)]
         for label, (mod, name), imported, real in cases:
-            for inst_custom in (False, True):
-                for imp_custom in (False, True):
-                    n += 1
+            # histories of two connections with every ordered pair of receiver settings: what one connection was
+            # allowed to rebuild must not change what a later, stricter connection does
+            for first in settings + [None]:
+              for (inst_custom, imp_custom) in settings:
+                if first is not None:
                     sys.modules.pop(modname, None)
+                    receive(((mod, name), ("warm",), (), "tb"), first[0], first[1])
+                    if not (first[0] and first[1]):
+                        sys.modules.pop(modname, None)
+                if True:
+                    n += 1
+                    if first is None:
+                        sys.modules.pop(modname, None)
                     del CONSTRUCTED[:]
                     before = set(sys.modules)
+                    already = modname in sys.modules
                     rec = ((mod, name), ("a", 1), (("extra", 5),), "remote tb")
                     (how, got), left = receive(rec, inst_custom, imp_custom)
                     newmods = set(sys.modules) - before
+                    hist = "first=%r then inst=%s imp=%s" % (first, inst_custom, imp_custom)
                     if how != "raised":
-                        viol.append(("custom:no-exception-raised:%s" % label, ""))
+                        viol.append(("custom:no-exception-raised:%s" % label, hist))
                         continue
                     # importing
                     if newmods and not imp_custom:
-                        viol.append(("custom:imported-although-denied:%s" % label, repr(sorted(newmods))))
+                        viol.append(("custom:imported-although-denied:%s" % label, "%s %r" % (hist, sorted(newmods))))
                     if label == "importable-not-imported":
-                        should_be_real = inst_custom and imp_custom
+                        should_be_real = inst_custom and (imp_custom or already)
                         is_real = type(got).__mro__[1].__module__ == modname if len(type(got).__mro__) > 1 else False
                         if is_real != should_be_real:
                             viol.append(("custom:fresh-class-%s" % ("rebuilt-although-denied" if is_real else "not-rebuilt-although-allowed"),
-                                         "inst=%s imp=%s got %r" % (inst_custom, imp_custom, type(got).__mro__)))
+                                         "%s got %r" % (hist, type(got).__mro__)))
                     if real is not None:
                         is_real = isinstance(got, real)
                         if is_real != inst_custom:
                             viol.append(("custom:imported-class-%s" % ("rebuilt-although-denied" if is_real else "not-rebuilt-although-allowed"),
-                                         "inst=%s imp=%s got %r" % (inst_custom, imp_custom, type(got))))
+                                         "%s got %r" % (hist, type(got))))
                     if "init" in CONSTRUCTED:
-                        viol.append(("custom:constructor-__init__-ran:%s" % label, ""))
+                        viol.append(("custom:constructor-__init__-ran:%s" % label, hist))
                     if "new" in CONSTRUCTED and not inst_custom:
-                        viol.append(("custom:constructor-__new__-ran-although-denied:%s" % label, ""))
+                        viol.append(("custom:constructor-__new__-ran-although-denied:%s" % label, hist))
                     if label.startswith(("non-exception", "class-but-not", "unknown")):
                         if not isinstance(got, vinegar.GenericException):
                             viol.append(("custom:non-exception-not-generic:%s" % label, repr(type(got).__mro__)))
